@@ -62,6 +62,10 @@ CHECKS['C18'] = dict(engine='W-sweep', level='fault_enumeration', design='5/C18'
    text='per seeded program layout (up to four programs: main, two inherited levels, a second object; functions placed in the .c files or in headers included at nesting depth 1-3 at the top, middle or end of a file or inside a function body; blank/comment/#define/#if padding, also enough lines to cross 32767 and 65535; statements spanning several lines; statements of more than 255 bytes of code; for/while/if nests; local, inherited, overridden (::), call_other calls; catch; function literals and anonymous functions evaluated later; statements that fail naturally) a fault-free run through the real backend, then one run per instruction k executed by the generated programs with an LPC error injected exactly at k (every k up to the cap). The file, line and trace handed to master::error_handler must be those of a statement that the generator\'s own abstract interpreter says can be executing between the last marker seen and the next; every outer trace frame must name its function, program, object and sit on the lines of its call statement; natural errors must be reported exactly at their statement. Sampling over layouts, enumeration over fault points.',
    note='programs loaded from saved binaries are not covered; an instruction between two markers may belong to either neighbouring statement (bracket oracle), exact only for natural errors; a loop/if statement spans header to closing brace',
    technique='deterministic simulation with fault injection (error injected at every executed instruction, oracle from an independent abstract interpreter of the generated layout)')
+CHECKS['C08'] = dict(engine='W-loop', level='exploration', design='5/C08',
+   text='seeded search over histories of load, clone, move, destruct, enable_commands, set_living_name, command, present/say and heart-beat operations on 3-12 objects (thorough: also ~300) and two users, issued from top level and re-entrantly from create/init/id/catch_tell/move_or_destruct/heart_beat/command hooks that move, clone and destruct themselves, their environment or siblings or raise errors, with failing variants (move into itself/own inventory, clone of a clone, missing file, master::valid_object veto) and LPC errors injected at seeded instructions. At every backend cycle and at walk points inside hooks the simulator walks the driver structures (obj_list, destruct list, name table, inventories, environments, sentences, living hash, connection slots) for: name <-> live object bijection, one inventory per object, forest, no destructed object reachable; after every command an LPC-visible dump (environment, all_inventory, find_object, objects, livings, users, held references) is checked for internal consistency, for references to destructed objects reading 0, for hooks never running in an object destructed in an earlier cycle, and - in hook-free histories - for equality with an abstract world. Sampling, not proof.',
+   note='the order in which hooks fire is not modelled (hook histories are judged for consistency only); virtual objects and replace_program are not driven',
+   technique='deterministic simulation with fault injection (re-entrant hook schedules, injected errors, structure invariants checked during the run, reference model for hook-free histories)')
 PENDING = 'check not built yet (work in progress, see DESIGN.md section 10)'
 
 def main():
